@@ -1,6 +1,9 @@
-(* C15 — the source-derived isSQLSpace / isSQLIDChar / sqlToken (Gen/SqlToken.v, regenerated from
-   db/state.go on every run) are the tokenizer of the hand model: Model.C15.g_is_space, g_is_idchar,
-   g_token (on which the guard model `guard` and theorem C15_guard_complete rest).
+(* C15 — the source-derived isSQLSpace / isSQLIDChar / asciiLower / sqlToken / IsBreakingPragma
+   (Gen/SqlToken.v, regenerated from db/state.go on every run) are the hand model's g_is_space,
+   g_is_idchar, g_ascii_lower, g_token and — the statement theorem C15_guard_complete is about —
+   `guard`: for enough fuel, IsBreakingPragma (zs text) = guard text.
+   strings.TrimLeftFunc(s, unicode.IsSpace) is a Section variable of the generated file, instantiated
+   with the model's go_trim_left (trim); BreakingPragmas is the generated map literal.
    Adapter.  The unit is translated with Go strings as byte lists (units.go `bytestr`: indexing,
    slicing, strings.HasPrefix / IndexByte / Index from Lib/GoLib.v); bytes are N in the model and Z in
    the generated file (zs); token kinds are the iota constants tkSpace..tkOther (kind_code).  sqlToken
@@ -10,7 +13,11 @@
    loop as an unfolding equation and prove its result by induction; an edit of a loop body needs the
    equation restated (see docs/gotrans.md, brittleness). *)
 From Coq Require Import List String Bool NArith ZArith Lia ZifyBool ZifyN ZifyNat.
-From RQ Require Import Lib.GoLib Lib.GenTac Model.C15_Sqlite Model.C15 Gen.SqlToken.
+From RQ Require Import Lib.GoLib.
+From RQ Require Import Lib.GenTac.
+From RQ Require Import Model.C15_Sqlite.
+From RQ Require Import Model.C15.
+From RQ Require Import Gen.SqlToken.
 Import ListNotations.
 Local Open Scope Z_scope.
 
@@ -285,7 +292,7 @@ Proof.
   intros s fuel Hne Hf. destruct s as [|c r]; [congruence|]. clear Hne.
   assert (Hs : c :: r = [c] ++ r) by reflexivity.
   assert (Hf' : (List.length r < fuel)%nat) by (cbn in Hf; lia).
-  unfold sqlToken, g_token.
+  unfold sqlToken, g_token. aux.
   change (nth (Z.to_nat 0) (zs (c :: r)) 0) with (Z.of_N c).
   change (nth (Z.to_nat 1) (zs (c :: r)) 0) with (nth 1 (zs (c :: r)) 0).
   cbv zeta.
@@ -317,4 +324,192 @@ Proof.
   repeat step_rhs;
   cbn [fst snd kind_code zopt];
   first [reflexivity | (do 2 f_equal; clear; lia) | solve [byte_facts] | (exfalso; lia)].
+Qed.
+
+(* ------------------------------------------------------------------ IsBreakingPragma *)
+From RQ Require Import Proofs.C15_Token.
+From RQ Require Import Proofs.C15.
+
+Definition ns (l : list Z) : bytes := map Z.to_N l.
+Lemma ns_zs : forall b, ns (zs b) = b.
+Proof. induction b as [|x b IH]; cbn; [reflexivity|]. rewrite N2Z.id. f_equal. exact IH. Qed.
+
+Lemma zs_if : forall (b : bool) (x y : bytes), (if b then zs x else zs y) = zs (if b then x else y).
+Proof. intros [] x y; reflexivity. Qed.
+
+Lemma firstn_zs : forall s k, slice_to (zs s) (Z.of_nat k) = zs (firstn k s).
+Proof. intros. unfold slice_to, zs. rewrite Nat2Z.id. apply firstn_map. Qed.
+
+Lemma bytes_eqb_zs : forall a b, GoLib.bytes_eqb (zs a) (zs b) = C15_Sqlite.bytes_eqb a b.
+Proof.
+  induction a as [|x a IH]; intros [|y b]; cbn [zs map GoLib.bytes_eqb C15_Sqlite.bytes_eqb]; try reflexivity.
+  rewrite eqb_nn. fold (zs a) (zs b). rewrite IH. reflexivity.
+Qed.
+
+Lemma cstring_zs : forall t,
+  (let i := bytes_index_byte (zs t) 0 in if Z.leb 0 i then slice_to (zs t) i else zs t) = zs (cstring t).
+Proof.
+  induction t as [|x t IH]; [reflexivity|]. cbv zeta in *. cbn [zs map bytes_index_byte cstring].
+  rewrite eqb_c by lia. cbn [Z.to_N]. destruct (N.eqb x 0); [reflexivity|].
+  fold (zs t). destruct (Z.ltb (bytes_index_byte (zs t) 0) 0) eqn:E.
+  - replace (Z.leb 0 (bytes_index_byte (zs t) 0)) with false in IH by (symmetry; apply Z.leb_gt; apply Z.ltb_lt; exact E).
+    cbn. fold (zs t) (zs (cstring t)). rewrite <- IH. reflexivity.
+  - apply Z.ltb_ge in E.
+    replace (Z.leb 0 (bytes_index_byte (zs t) 0)) with true in IH by (symmetry; apply Z.leb_le; lia).
+    replace (Z.leb 0 (bytes_index_byte (zs t) 0 + 1)) with true by (symmetry; apply Z.leb_le; lia).
+    unfold slice_to in *. replace (Z.to_nat (bytes_index_byte (zs t) 0 + 1)) with (S (Z.to_nat (bytes_index_byte (zs t) 0))) by lia.
+    cbn [firstn map]. fold (zs t) (zs (cstring t)). rewrite IH. reflexivity.
+Qed.
+
+Lemma list_set_mid : forall (A : Type) (a b : list A) (x v : A),
+  list_set (a ++ x :: b) (Z.of_nat (List.length a)) v = a ++ v :: b.
+Proof.
+  intros A a b x v. unfold list_set. rewrite Nat2Z.id. induction a as [|y a IH]; cbn; [reflexivity|]. rewrite IH. reflexivity.
+Qed.
+
+Definition lower_z (z : Z) : Z := if (Z.leb 65 z) && (Z.leb z 90) then z + 97 - 65 else z.
+
+Lemma asciiLower_map : forall l, asciiLower l = map lower_z l.
+Proof.
+  intros l. unfold asciiLower. cbv zeta.
+  lazymatch goal with |- ?lhs = _ => lazymatch lhs with ?F ?a0 ?b0 ?c0 => pose (LOOP := F) end end.
+  enough (H : forall suf done, LOOP suf (Z.of_nat (List.length done)) (done ++ suf) = done ++ map lower_z suf) by exact (H l []).
+  induction suf as [|x suf IH]; intros done.
+  - reflexivity.
+  - unfold LOOP; fold LOOP. unfold lower_z at 1. cbn [map].
+    specialize (IH (done ++ [if (Z.leb 65 x) && (Z.leb x 90) then x + 97 - 65 else x])).
+    rewrite app_length, Nat2Z.inj_add in IH. cbn [List.length Z.of_nat] in IH. change (Z.pos (Pos.of_succ_nat 0)) with 1 in IH.
+    rewrite <- !app_assoc in IH. cbn [app] in IH.
+    destruct ((Z.leb 65 x) && (Z.leb x 90)); [rewrite list_set_mid|]; exact IH.
+Qed.
+
+Lemma asciiLower_zs : forall t, asciiLower (zs t) = zs (g_ascii_lower t).
+Proof.
+  intros t. rewrite asciiLower_map. unfold zs, g_ascii_lower. rewrite !map_map. apply map_ext. intros x.
+  unfold lower_z. n2z. destruct ((65 <=? x)%N && (x <=? 90)%N) eqn:E; [|reflexivity].
+  apply andb_prop in E. destruct E as [E1 E2]. apply N.leb_le in E1. lia.
+Qed.
+
+Lemma blookup_zs : forall (m : list (bytes * bool)) k,
+  blookup (map (fun p => (zs (fst p), snd p)) m) (zs k) = map_lookup m k.
+Proof.
+  induction m as [|[k' v] m IH]; intros k; cbn [map blookup map_lookup fst snd]; [reflexivity|].
+  rewrite bytes_eqb_zs. destruct (C15_Sqlite.bytes_eqb k' k); [reflexivity|apply IH].
+Qed.
+
+Lemma pragmas_zs : BreakingPragmas = map (fun p => (zs (fst p), snd p)) breaking_pragmas.
+Proof. reflexivity. Qed.
+
+Lemma inner_zs : forall tok,
+  slice_from (slice_to (zs tok) (zlen (zs tok) - 1)) 1 = zs (g_inner tok).
+Proof.
+  intros tok. destruct tok as [|a tok]; [reflexivity|]. rewrite zlen_zs. unfold g_inner.
+  replace (Z.of_nat (List.length (a :: tok)) - 1) with (Z.of_nat (List.length (a :: tok) - 1)) by (cbn [List.length]; lia).
+  rewrite firstn_zs. change 1 with (Z.of_nat 1). rewrite skipn_zs. f_equal.
+  destruct tok as [|b t]; [reflexivity|].
+  rewrite firstn_skipn_comm. f_equal. f_equal. cbn [List.length]. lia.
+Qed.
+
+Definition scode (g : gstate) : Z :=
+  match g with AtStart => 0 | AtExplain => 1 | AtPragma => 2 | AtName => 3 | AtDot => 4 | AtName2 => 5 | AtRest => 6 end.
+
+Lemma scode_eqb : forall a b, Z.eqb (scode a) (scode b) = gstate_eqb a b.
+Proof. intros [] []; reflexivity. Qed.
+Lemma kcode_eqb : forall a b, Z.eqb (kind_code a) (kind_code b) = gkind_eqb a b.
+Proof. intros [] []; reflexivity. Qed.
+
+Lemma sc0 g : Z.eqb (scode g) 0 = gstate_eqb g AtStart. Proof. destruct g; reflexivity. Qed.
+Lemma sc1 g : Z.eqb (scode g) 1 = gstate_eqb g AtExplain. Proof. destruct g; reflexivity. Qed.
+Lemma sc2 g : Z.eqb (scode g) 2 = gstate_eqb g AtPragma. Proof. destruct g; reflexivity. Qed.
+Lemma sc3 g : Z.eqb (scode g) 3 = gstate_eqb g AtName. Proof. destruct g; reflexivity. Qed.
+Lemma sc4 g : Z.eqb (scode g) 4 = gstate_eqb g AtDot. Proof. destruct g; reflexivity. Qed.
+Lemma sc5 g : Z.eqb (scode g) 5 = gstate_eqb g AtName2. Proof. destruct g; reflexivity. Qed.
+Lemma sc6 g : Z.eqb (scode g) 6 = gstate_eqb g AtRest. Proof. destruct g; reflexivity. Qed.
+Lemma kc_space k : Z.eqb (kind_code k) tkSpace = gkind_eqb k TkSpace. Proof. destruct k; reflexivity. Qed.
+Lemma kc_word k : Z.eqb (kind_code k) tkWord = gkind_eqb k TkWord. Proof. destruct k; reflexivity. Qed.
+Lemma kc_quoted k : Z.eqb (kind_code k) tkQuoted = gkind_eqb k TkQuoted. Proof. destruct k; reflexivity. Qed.
+Lemma kc_semi k : Z.eqb (kind_code k) tkSemi = gkind_eqb k TkSemi. Proof. destruct k; reflexivity. Qed.
+Lemma kc_dot k : Z.eqb (kind_code k) tkDot = gkind_eqb k TkDot. Proof. destruct k; reflexivity. Qed.
+Lemma kc_eq k : Z.eqb (kind_code k) tkEq = gkind_eqb k TkEq. Proof. destruct k; reflexivity. Qed.
+Lemma kc_lp k : Z.eqb (kind_code k) tkLP = gkind_eqb k TkLP. Proof. destruct k; reflexivity. Qed.
+Lemma kc_other k : Z.eqb (kind_code k) tkOther = gkind_eqb k TkOther. Proof. destruct k; reflexivity. Qed.
+Ltac codes := rewrite ?sc0, ?sc1, ?sc2, ?sc3, ?sc4, ?sc5, ?sc6, ?kc_space, ?kc_word, ?kc_quoted, ?kc_semi, ?kc_dot, ?kc_eq, ?kc_lp, ?kc_other.
+
+Definition trim (z : list Z) : list Z := zs (go_trim_left (ns z)).
+
+Arguments IsBreakingPragma strings_TrimLeftFunc_unicode_IsSpace _ _ : assert.
+
+Lemma g_loop_S : forall f g b s,
+  g_loop (S f) g b s =
+    let s := if gstate_eqb g AtStart then go_trim_left s else s in
+    match s with
+    | [] => Some false
+    | _ :: _ => let '(kind, n) := g_token s in
+                match g_switch g b kind (firstn n s) with
+                | GReturn r => Some r
+                | GNext g' b' => g_loop f g' b' (skipn n s)
+                end
+    end.
+Proof. reflexivity. Qed.
+
+Theorem gen_IsBreakingPragma_loop : forall text fuel, (List.length text + 1 < fuel)%nat ->
+  IsBreakingPragma trim (zs text) fuel = g_loop fuel AtStart false (cstring text).
+Proof.
+  intros text fuel Hf. unfold IsBreakingPragma. aux.
+  pose proof (cstring_zs text) as Hc. cbv zeta in Hc |- *. rewrite Hc. clear Hc.
+  assert (Hl : (List.length (cstring text) + 1 < fuel)%nat).
+  { assert (List.length (cstring text) <= List.length text)%nat; [|lia].
+    clear. induction text as [|x t IH]; cbn; [lia|]. destruct (x =? 0)%N; cbn; lia. }
+  lazymatch goal with |- ?lhs = _ => lazymatch lhs with ?F ?a0 ?b0 ?c0 ?d0 => pose (LOOP := F) end end.
+  enough (H : forall f s g b, (List.length s + 1 < f)%nat -> LOOP f (zs s) (scode g) b = g_loop f g b s)
+    by exact (H fuel (cstring text) AtStart false Hl).
+  clear. induction f as [|f IH]; intros s g b Hl; [lia|].
+  rewrite g_loop_S. unfold LOOP; fold LOOP. cbv zeta.
+  rewrite !sc0. unfold trim. rewrite ns_zs, zs_if.
+  assert (Hle : (List.length (if gstate_eqb g AtStart then go_trim_left s else s) <= List.length s)%nat)
+    by (destruct (gstate_eqb g AtStart); [apply (trim_le _ _ (le_n _))|lia]).
+  destruct (if gstate_eqb g AtStart then go_trim_left s else s) as [|c r] eqn:Es; [reflexivity|].
+  assert (Hle' : (List.length (c :: r) <= List.length s)%nat) by (rewrite <- Es; exact Hle).
+  change (GoLib.bytes_eqb (zs (c :: r)) []) with false. cbv iota.
+  rewrite gen_sqlToken_eq by (try discriminate; lia).
+  destruct (tok_sim (c :: r) ltac:(discriminate)) as (t0 & rest & _ & _ & _ & Hn).
+  destruct (g_token (c :: r)) as [kind n]. cbn [fst snd] in *.
+  rewrite ?firstn_zs, ?skipn_zs. codes.
+  rewrite ?inner_zs, ?zs_if, ?asciiLower_zs, pragmas_zs, ?blookup_zs.
+  repeat match goal with
+         | |- context [GoLib.bytes_eqb (zs ?x) ?l] =>
+             lazymatch l with zs _ => fail | _ => let l' := eval cbv in (map Z.to_N l) in change (GoLib.bytes_eqb (zs x) l) with (GoLib.bytes_eqb (zs x) (zs l')) end
+         end.
+  rewrite ?bytes_eqb_zs.
+  unfold g_switch, g_is_keyword.
+  repeat match goal with |- context [bytes_of_string ?w] => let v := eval vm_compute in (bytes_of_string w) in change (bytes_of_string w) with v end.
+  assert (IH' : forall s' sc b' g', sc = scode g' -> (List.length s' + 1 < f)%nat -> LOOP f (zs s') sc b' = g_loop f g' b' s')
+    by (intros; subst; apply IH; assumption).
+  assert (Hrest : (List.length (skipn n (c :: r)) + 1 < f)%nat) by (rewrite skipn_length; lia).
+  clear IH Hl Hle Hle' Es Hn.
+  repeat step_lhs; repeat step_rhs;
+  first [ reflexivity
+        | apply IH'; [reflexivity|exact Hrest]
+        | (destruct kind; try discriminate; destruct g; try discriminate; fail) ].
+Qed.
+
+Theorem gen_IsBreakingPragma_eq : forall text fuel, (List.length text + 1 < fuel)%nat ->
+  IsBreakingPragma trim (zs text) fuel = guard text.
+Proof.
+  intros text fuel Hf. rewrite gen_IsBreakingPragma_loop by exact Hf. unfold guard. cbv zeta.
+  assert (Hl : (List.length (cstring text) <= List.length text)%nat).
+  { clear. induction text as [|x t IH]; cbn; [lia|]. destruct (x =? 0)%N; cbn; lia. }
+  revert Hl. generalize (cstring text) as s. intros s Hl.
+  assert (H : forall f1 f2 g b (s : bytes), (List.length s < f1)%nat -> (List.length s < f2)%nat -> g_loop f1 g b s = g_loop f2 g b s).
+  { clear. induction f1 as [|f1 IH]; intros f2 g b s H1 H2; [lia|]. destruct f2 as [|f2]; [lia|].
+    rewrite !g_loop_S. cbv zeta.
+    assert (Hle : (List.length (if gstate_eqb g AtStart then go_trim_left s else s) <= List.length s)%nat)
+      by (destruct (gstate_eqb g AtStart); [apply (trim_le _ _ (le_n _))|lia]).
+    destruct (if gstate_eqb g AtStart then go_trim_left s else s) as [|c r] eqn:Es; [reflexivity|].
+    assert (Hle' : (List.length (c :: r) <= List.length s)%nat) by (rewrite <- Es; exact Hle).
+    destruct (tok_sim (c :: r) ltac:(discriminate)) as (t0 & rest & _ & _ & _ & Hn).
+    destruct (g_token (c :: r)) as [kind n]. cbn [fst snd] in *.
+    destruct (g_switch g b kind (firstn n (c :: r))); [reflexivity|].
+    apply IH; rewrite skipn_length; lia. }
+  apply H; lia.
 Qed.
